@@ -2,10 +2,10 @@ package vc
 
 import (
 	"fmt"
-	"os"
 	"go/ast"
 	"go/token"
 	"go/types"
+	"os"
 	"sort"
 	"strings"
 
@@ -71,17 +71,18 @@ type fnv struct {
 	c    *Ctx
 	h    *Heap
 
-	entry    *State // state after assuming the preconditions
-	obls     []*Obligation
-	counters map[string]int
-	loopOrd  map[ast.Node]int
-	callOrd  map[string]int
-	boxedVar map[types.Object]bool // locals whose address is taken: live in heap cells
-	assumed  map[string]bool       // unchecked assumptions met while generating (callee without contract, ...)
-	frames   []*frame
-	rangeMap []rangedMap
-	atDone   map[*AtClause]int
-	nInline  int
+	entry       *State // state after assuming the preconditions
+	obls        []*Obligation
+	counters    map[string]int
+	loopOrd     map[ast.Node]int
+	callOrd     map[string]int
+	callSiteOrd map[*ast.CallExpr]int
+	boxedVar    map[types.Object]bool // locals whose address is taken: live in heap cells
+	assumed     map[string]bool       // unchecked assumptions met while generating (callee without contract, ...)
+	frames      []*frame
+	rangeMap    []rangedMap
+	atDone      map[*AtClause]int
+	nInline     int
 
 	specDepth     int
 	curPos        token.Pos
@@ -117,10 +118,10 @@ type deferred struct {
 type flows struct {
 	next  *State   // single (merged) continuation
 	nexts []*State // the same continuation kept as separate paths (optional; nil means {next})
-	brk  []jump
-	cont []jump
-	ret  []*State
-	pan  []*State
+	brk   []jump
+	cont  []jump
+	ret   []*State
+	pan   []*State
 }
 
 type jump struct {
@@ -181,6 +182,18 @@ func (x *fnv) oblige(s *State, kind, label string, goal *Term, pos token.Pos, cl
 		name += "." + label
 	}
 	o := &Obligation{Name: name, Func: x.qual(), Kind: kind, Label: label, Props: x.props(cl), Goal: goal, Pos: x.posStr(pos), ctx: x.c}
+	if kind == "frame" || strings.HasSuffix(kind, ".frame") {
+		// write-frame obligations are the content of C09 (runs write only their own memory) for every function under contract
+		has := false
+		for _, p := range o.Props {
+			if p == "C09" {
+				has = true
+			}
+		}
+		if !has {
+			o.Props = append(append([]string(nil), o.Props...), "C09")
+		}
+	}
 	if cl != nil {
 		o.Src = cl.Src
 	}
